@@ -405,7 +405,12 @@ class Parser:
             return self.token_error('Cannot use {} as a value.')
 
         if dest is OpCode.PUSH:
-            code_gen.push(value)
+            if move_inst is OpCode.MOVEQ:
+                # A literal, which may be a string. Don't let a string be
+                # mistaken for the name of a variable.
+                code_gen.add_instruction(OpCode.PUSHQ, value)
+            else:
+                code_gen.push(value)
         elif value is not dest:
             code_gen.add_instruction(move_inst, value, dest)
 
